@@ -80,6 +80,7 @@ class ProofStatus:
     modules: list[str] = field(default_factory=list)
     translate: str = ""
     driver_ok: bool = True
+    leanchecker: str = "not run (thorough tier only)"
 
 
 def _run(cmd, cwd=None, timeout=3600, env=None) -> subprocess.CompletedProcess:
@@ -130,8 +131,8 @@ DECL_RE = re.compile(r"^\s*(?:private\s+|protected\s+)?(theorem|lemma|example)\b
 NS_RE = re.compile(r"^\s*namespace\s+(\S+)", re.M)
 
 
-def prove(prop: str, modules: list[str]) -> ProofStatus:
-    """Regenerate Gen, build the Props modules for `prop` and the driver, audit."""
+def prove(prop: str, modules: list[str], tier: str = "quick") -> ProofStatus:
+    """Regenerate Gen, build the Props modules for `prop` and the driver, audit (thorough: also leanchecker)."""
     st = ProofStatus(ok=False, modules=modules)
     with BuildLock():
         st.translate = translate()
@@ -218,6 +219,13 @@ def prove(prop: str, modules: list[str]) -> ProofStatus:
                 st.failed.append(f"audit: {t} depends on {extra}")
         if a.returncode != 0 and not st.failed:
             st.failed.append("audit failed: " + a.stdout.strip()[-200:])
+        if tier == "thorough":
+            # independent re-check of the compiled modules (and everything they import) by Lean's external checker
+            lc = _run(["lake", "env", "leanchecker"] + modules, cwd=LEAN)
+            st.log += lc.stdout
+            st.leanchecker = "ok" if lc.returncode == 0 else "failed"
+            if lc.returncode != 0:
+                st.failed.append("leanchecker: " + (lc.stdout.strip().splitlines() or ["?"])[-1][:200])
         if not prop_theorems:
             st.failed.append(f"no theorem named {prop}_* found in {modules}")
         st.discharged = st.obligations if not st.failed else max(0, st.obligations - len(st.failed))
@@ -365,10 +373,66 @@ class Ctx:
 
     def scale(self, quick: int, thorough: int) -> int:
         n = thorough if self.tier == "thorough" else quick
-        return n * 10 if self.search_mode else n
+        # search mode (a proof obligation or the correspondence broke): 10x the quick budget, 2x the thorough one
+        return n * (2 if self.tier == "thorough" else 10) if self.search_mode else n
 
     def cleanup(self):
         shutil.rmtree(self.tmp, ignore_errors=True)
+
+
+class SubCtx:
+    """per-job context of `parallel_jobs`: own scratch directory, same tier / seed / search mode"""
+
+    def __init__(self, parent: "Ctx", job: int):
+        self.prop, self.tier, self.seed, self.search_mode, self.job = parent.prop, parent.tier, parent.seed, parent.search_mode, job
+        self.rng = random.Random(f"{parent.prop}-{parent.seed}-{job}")
+        self.tmp = Path(tempfile.mkdtemp(prefix=f"zv-{parent.prop}-j{job}-"))
+        self.t0 = parent.t0
+
+    def scale(self, quick: int, thorough: int) -> int:
+        n = thorough if self.tier == "thorough" else quick
+        # search mode (a proof obligation or the correspondence broke): 10x the quick budget, 2x the thorough one
+        return n * (2 if self.tier == "thorough" else 10) if self.search_mode else n
+
+
+_PJ = None  # (parent ctx, worker) of the running parallel_jobs call: inherited by the forked pool, never pickled
+
+
+def _job_entry(job):
+    parent, worker = _PJ
+    sub = SubCtx(parent, job)
+    res = Result()
+    try:
+        with QuietStderr():
+            ret = worker(sub, res, sub.rng, job)
+    finally:
+        shutil.rmtree(sub.tmp, ignore_errors=True)
+    return job, res, ret
+
+
+def parallel_jobs(ctx: "Ctx", n: int, worker, procs: int = 14):
+    """runs worker(sub_ctx, res, rng, job) for job in range(n) in forked processes (each with its own scratch directory and
+    its own PRNG derived from property, seed and job number, so a failing job replays alone); merges the Results in job order.
+    Returns (merged Result, [worker return values in job order])."""
+    import multiprocessing as mp
+
+    global _PJ
+    out = [None] * n
+    if n == 0:
+        return Result(), []
+    _PJ = (ctx, worker)
+    try:
+        with mp.get_context("fork").Pool(min(procs, n)) as pool:
+            for job, res, ret in pool.imap_unordered(_job_entry, range(n)):
+                out[job] = (res, ret)
+    finally:
+        _PJ = None
+    merged = Result()
+    rets = []
+    for res, ret in out:
+        merged.merge(res)
+        rets.append(ret)
+    return merged, rets
 
 
 def write_replay(prop: str, seed: int, payload: dict) -> Path:
@@ -456,7 +520,7 @@ def finish(
     cov = {
         "obligations": proof.obligations,
         "discharged": proof.discharged,
-        "checker_cmd": "cd lean && lake build " + " ".join(proof.modules) + "  (+ #print axioms audit)",
+        "checker_cmd": "cd lean && lake build " + " ".join(proof.modules) + "  (+ #print axioms audit; leanchecker: " + proof.leanchecker + ")",
         "trusted_base": ["Lean 4.33 kernel"]
         + ["axiom " + a for a in trusted]
         + ["harness/translate.py (Gen/*.lean)", "correspondence harness (sampled tie model<->code)"],
@@ -520,7 +584,7 @@ def run_check(
     tier = a.tier if a.tier in ("quick", "thorough") else "quick"
     ctx = Ctx(prop, tier, a.seed)
     try:
-        proof = prove(prop, modules)
+        proof = prove(prop, modules, tier)
         if a.replay:
             payload = json.loads(Path(a.replay).read_text())
             if replay_fn is None or payload.get("kind") == "no-failing-input-found":
